@@ -48,6 +48,8 @@ void ComplainAboutARPA(const Config &config, ModelType model_type) {
 void CheckCounts(const std::vector<uint64_t> &counts) {
   UTIL_THROW_IF(counts.size() > KENLM_MAX_ORDER, FormatLoadException, "This model has order " << counts.size() << " but KenLM was compiled to support up to " << KENLM_MAX_ORDER << ".  " << KENLM_ORDER_MESSAGE);
   UTIL_THROW_IF(counts.size() < 2, FormatLoadException, "This ngram implementation assumes at least a bigram model.");
+  // There is always <unk>.  A binary file whose header was only partly written says zero here.
+  UTIL_THROW_IF(!counts[0], FormatLoadException, "This model claims to have no unigrams, not even <unk>.  If it is a binary file, it did not finish building.");
   if (sizeof(uint64_t) > sizeof(std::size_t)) {
     for (std::vector<uint64_t>::const_iterator i = counts.begin(); i != counts.end(); ++i) {
       UTIL_THROW_IF(*i > static_cast<uint64_t>(std::numeric_limits<size_t>::max()), util::OverflowException, "This model has " << *i << " " << (i - counts.begin() + 1) << "-grams which is too many for 32-bit machines.");
